@@ -209,6 +209,14 @@ class Extractor:
             h = self.env.get("__if__")
             if h is not None and h(self, st):
                 return
+            try:
+                tv0 = self.expr(st.test) if isinstance(st.test, ast.Compare) and isinstance(st.test.ops[0], (ast.Is, ast.IsNot)) else None
+            except AnalysisError:
+                tv0 = None
+            if isinstance(tv0, bool):
+                for s2 in (st.body if tv0 else st.orelse):
+                    self.stmt(s2)
+                return
             choices = self.shared.get("choices")
             if choices is not None:
                 # a scalar, data-dependent condition (e.g. a comparison of angular momenta, or a flag bound from one)
@@ -427,6 +435,10 @@ class Extractor:
                 out.append(self.expr(e.elt))
             self.env = saved
             return out
+        if isinstance(e, ast.Compare) and len(e.ops) == 1 and isinstance(e.ops[0], (ast.Is, ast.IsNot)) and isinstance(e.comparators[0], ast.Constant) \
+                and e.comparators[0].value is None:
+            v = self.expr(e.left)
+            return (v is None) if isinstance(e.ops[0], ast.Is) else (v is not None)
         if isinstance(e, ast.Compare) and len(e.ops) == 1 and isinstance(e.ops[0], (ast.Lt, ast.LtE, ast.Gt, ast.GtE, ast.Eq, ast.NotEq)):
             # elementwise comparison of arrays: a 0/1 indicator (it takes part in arithmetic as such)
             l, r = self.expr(e.left), self.expr(e.comparators[0])
